@@ -1201,6 +1201,7 @@ func (vc *VC) execTypeAssert(fr *frame, st *State, x *ssa.TypeAssert) Val {
 func mapKey(mt *types.Map) string { return "Map$" + typeKey(mt) }
 
 func (vc *VC) mapValSort(mt *types.Map) (Sort, bool) {
+	noteMapType(mt)
 	switch classify(mt.Elem()) {
 	case TKInt:
 		return SArrIAI, true
